@@ -11,6 +11,8 @@ package bytecode
 //   ret    : coerceByteCode (coerce.go) with the declared result type as operand
 //   retnil : coerceByteCode with a nil value and a map / slice / pointer result type
 //   sto    : create x; set x; storeByteCode of a constant or non-constant value
+//   retref : coerceByteCode with an array / map / struct / pointer value (zz_verif_c04ref_test.go), which
+//            also runs the argument and store boundaries on the same values for the direct oracle
 // The canonical answer "ok <kind> <n>" | "wrapped <kind> <n>" | "nil" | "float" | "err <class>" is
 // compared with the Lean model by ./check.  Builds on C03's helpers (c03Operand, c03Context …).
 //
@@ -20,6 +22,7 @@ package bytecode
 import (
 	"fmt"
 	"math/rand"
+	"strings"
 	"testing"
 
 	"github.com/tucats/ego/internal/defs"
@@ -212,8 +215,14 @@ func TestVerifC04(t *testing.T) {
 		stats.Inc("strict_accepts")
 
 		if s != rlx {
+			what := "the operation succeeds in strict mode and gives a different answer (or fails) in relaxed mode"
+			if strings.HasSuffix(boundary, "-ref") {
+				what = "a reference value (array / map / struct / pointer) that strict mode passes through the boundary keeps or loses its " +
+					"identity differently in relaxed mode: writes through one name are seen through the other in one type mode only"
+			}
+
 			fails.Write(verifh.Failure{Class: "boundary-not-monotone:" + boundary,
-				What:  "the operation succeeds in strict mode and gives a different answer (or fails) in relaxed mode",
+				What:  what,
 				Input: in, Got: "relaxed: " + rlx, Want: "strict: " + s})
 		}
 	}
@@ -316,4 +325,7 @@ func TestVerifC04(t *testing.T) {
 
 		mono("return-nil", fmt.Sprintf("retnil result=%s", nt.name), by)
 	}
+
+	// reference values (arrays, maps, structs, pointers of every element kind): what happens to their IDENTITY
+	c04RunRefs(verifh.Rand(45), emit, mono, stats.Inc)
 }
